@@ -17,8 +17,8 @@ import (
 
 func (e *ElectreIIIPreferenceFunc) Spec_ParseParams(dm *model.DecisionMaker) interface{} {
 	return electreIIIParams{
-		Criteria:        extractElectreIIICriteria(dm),
-		DistillationFun: getDistillationFunc(dm),
+		Criteria:        Spec_extractElectreIIICriteria(dm),
+		DistillationFun: Spec_getDistillationFunc(dm),
 	}
 }
 
@@ -28,13 +28,13 @@ func Spec_extractElectreIIICriteria(dm *model.DecisionMaker) *ElectreCriteria {
 		panic(fmt.Errorf("Criteria for electre not found in methodParameters: %v", dm.MethodParameters))
 	}
 	electreCriteria := make(ElectreCriteria)
-	utils.DecodeToStruct(potentialEleCriteria, &electreCriteria)
+	utils.Spec_DecodeToStruct(potentialEleCriteria, &electreCriteria)
 	for _, criterion := range dm.Criteria {
 		electreCriterion, cOk := electreCriteria[criterion.Id]
 		if !cOk {
 			panic(fmt.Errorf("criterion '%s' not found in electre Criteria: %v", criterion.Id, electreCriteria))
 		}
-		validateParameters(&criterion, &electreCriterion)
+		Spec_validateParameters(&criterion, &electreCriterion)
 	}
 	return &electreCriteria
 }
@@ -44,9 +44,9 @@ func Spec_validateParameters(criterion *model.Criterion, crit *ElectreCriterion)
 		panic(fmt.Errorf("electre criterion's weight must be positive, got %v for %s", crit.K, criterion.Id))
 	}
 	lastWeight := 0.0
-	lastWeight = requireBValueAtLeast(&crit.Q, lastWeight, criterion.Id, "Q")
-	lastWeight = requireBValueAtLeast(&crit.P, lastWeight, criterion.Id, "P")
-	requireBValueAtLeast(&crit.V, lastWeight, criterion.Id, "V")
+	lastWeight = Spec_requireBValueAtLeast(&crit.Q, lastWeight, criterion.Id, "Q")
+	lastWeight = Spec_requireBValueAtLeast(&crit.P, lastWeight, criterion.Id, "P")
+	Spec_requireBValueAtLeast(&crit.V, lastWeight, criterion.Id, "V")
 }
 
 func Spec_requireBValueAtLeast(f *utils.LinearFunctionParameters, current float64, criterion, funcName string) float64 {
@@ -68,7 +68,7 @@ func Spec_getDistillationFunc(dm *model.DecisionMaker) *utils.LinearFunctionPara
 		return &DefaultDistillationFunc
 	} else {
 		parameters := utils.LinearFunctionParameters{}
-		utils.DecodeToStruct(params, &parameters)
+		utils.Spec_DecodeToStruct(params, &parameters)
 		if parameters.B < 0 || parameters.A+parameters.B < 0 {
 			panic(fmt.Errorf("electre distillation function %v must not be negative for credibility in range [0, 1]", &parameters))
 		}
